@@ -38,16 +38,16 @@ var c10Good = []string{
 
 // Failing inputs: none of them binds, prints or mutates anything before it fails.
 var c10Bad = []c10Input{
-	{`boom(3)`, 0},                                // language error three calls deep
-	{`for i=0:5 { for j=0:5 { boom(j) } }`, 0},    // error inside nested loops inside calls
-	{`add(1, boom(2))`, 0},                        // error while evaluating an argument
-	{`deep(0)`, 0},                                // recovered panic: depth limit inside nested calls
-	{`for q=0:3 { deep(0) }`, 0},                  // the same from inside a top-level counted loop
-	{`undefined_thing + 1`, 0},                    // unbound identifier
-	{`add(1)`, 0},                                 // wrong number of arguments
+	{`boom(3)`, 0}, // language error three calls deep
+	{`for i=0:5 { for j=0:5 { boom(j) } }`, 0},          // error inside nested loops inside calls
+	{`add(1, boom(2))`, 0},                              // error while evaluating an argument
+	{`deep(0)`, 0},                                      // recovered panic: depth limit inside nested calls
+	{`for q=0:3 { deep(0) }`, 0},                        // the same from inside a top-level counted loop
+	{`undefined_thing + 1`, 0},                          // unbound identifier
+	{`add(1)`, 0},                                       // wrong number of arguments
 	{`for t=0:100000000000 { }`, 40 * time.Millisecond}, // deadline
-	{`func(z){ for w=0:9 { boom(w) } }(1)`, 0},    // error inside a lambda's loop
-	{`[1,2,3][boom(0)]`, 0},                       // error inside an index expression
+	{`func(z){ for w=0:9 { boom(w) } }(1)`, 0},          // error inside a lambda's loop
+	{`[1,2,3][boom(0)]`, 0},                             // error inside an index expression
 }
 
 func c10Session(inputs []c10Input, isGood []bool) []string {
